@@ -167,6 +167,10 @@ def oracle(ctx, T, s, r, how):
                 ctx.violation("lex-lexeme:" + s, s, "identifier name = its lexeme %r" % lexeme, repr(meta.get("name")), how)
             if nxt and IDENT_RE.match(nxt):
                 ctx.violation("lex-longest:" + s, s, "identifier extends over all identifier characters", r.dump, how)
+            # the other direction of the keyword rule: `to` / `in` NOT followed by a letter is the keyword,
+            # it must not be swallowed into an identifier (`in2` = `in`, `2`;  `to_` = `to` then an unknown token)
+            if lexeme[:2] in ("to", "in") and len(lexeme) > 2 and not lexeme[2].isalpha():
+                ctx.violation("lex-keyword:" + s, s, "`%s` followed by the non-letter %r is the keyword" % (lexeme[:2], lexeme[2]), r.dump, how)
         elif tag == "string" and "value" in meta:
             v = meta["value"]
             okv = (len(lexeme) >= 2 and lexeme[0] == '"' and lexeme[-1] == '"' and v == lexeme[1:-1]
